@@ -186,6 +186,23 @@ func c08Sources(r *drv.Run) ([][]byte, map[string]int) {
 			add("very-long", head+strings.Repeat(" ", n-len(head)-len(tail))+tail)
 		}
 	}
+	// identifier-shaped words built from letters whose case mapping changes their UTF-8 length or their number of
+	// characters (keyword lookup lower-cases words): every such letter, alone and among ASCII letters, for every
+	// word length from 1 to 24 bytes, in the places an identifier or a keyword may stand
+	for _, sp := range []string{"\u023a", "\u023e", "\u0130", "\u0131", "\u212a", "\u017f", "\u1e9e", "\u2126", "\u01c5", "\ufb01", "\u0149", "\u03a3", "\U00010400", "\U0001e900"} {
+		for n := 1; n <= 24; n++ {
+			w1 := strings.Repeat(sp, n)
+			if len(w1) <= 30 {
+				add("case-mapping-identifier", "find all "+w1)
+				add("case-mapping-identifier", "find all 'a' = "+w1)
+			}
+			pad := strings.Repeat("k", n)
+			add("case-mapping-identifier", "find all 'a' = "+pad+sp)
+			add("case-mapping-identifier", "find all "+sp+pad)
+			add("case-mapping-identifier", "set "+pad[:n/2]+sp+pad[n/2:]+" to pattern 'x'")
+			add("case-mapping-identifier", "set f to transform return "+pad+sp+" end")
+		}
+	}
 	for i := 0; i < nregex; i++ {
 		rng := gen.Derive(r.Seed, "C08regex", i)
 		n := rng.Intn(14)
@@ -217,7 +234,7 @@ func procProgramSource(rng *gen.Rng, i int) string {
 func C08(r *drv.Run) {
 	r.BuildWorker()
 	srcs, counts := c08Sources(r)
-	r.Rule = "sources: valid programs (hand corpus covering every production, repository examples, generated programs incl. process code) and, for each, every byte prefix and suffix, every one-token deletion/duplication/adjacent swap, every token prefix; random token soups; random bytes biased to lexer-significant characters; regex literals with arbitrary bodies, terminated and not; hostile tails pushed across a multiple of the lexer's 4096-byte read buffer by a long comment, blank run or string; sources of 2^16 .. 2^19 (thorough: 2^20) characters in eight shapes at four alignments and of exactly 2^k characters; exhaustively every pair of bytes (all 65 536) after `\\x` in both quote styles, after a backslash in a string and after a backslash in a regex literal. A sample of all of these is also delivered through CompileFile - as a regular file, through a symbolic link, through a named pipe, plus /dev/null, a directory and a missing path - and must meet the same outcome as Compile on the same bytes (for the last three: program XOR printable error). Each Compile runs in a killable worker under a lexer-read budget (hook H2), a 30 CPU-second and 1.5 GiB guard; outcome classified: program XOR error, printable non-empty error, no panic, no nil hole anywhere in the AST (reflective walk) or bytecode. Every distinct source text counts once (the valid base programs are the control group that must be accepted)."
+	r.Rule = "sources: valid programs (hand corpus covering every production, repository examples, generated programs incl. process code) and, for each, every byte prefix and suffix, every one-token deletion/duplication/adjacent swap, every token prefix; random token soups; random bytes biased to lexer-significant characters; regex literals with arbitrary bodies, terminated and not; hostile tails pushed across a multiple of the lexer's 4096-byte read buffer by a long comment, blank run or string; sources of 2^16 .. 2^19 (thorough: 2^20) characters in eight shapes at four alignments and of exactly 2^k characters; identifier-shaped words of 1..24 bytes built from letters whose case mapping changes their length; exhaustively every pair of bytes (all 65 536) after `\\x` in both quote styles, after a backslash in a string and after a backslash in a regex literal. A sample of all of these is also delivered through CompileFile - as a regular file, through a symbolic link, through a named pipe, plus /dev/null, a directory and a missing path - and must meet the same outcome as Compile on the same bytes (for the last three: program XOR printable error). Each Compile runs in a killable worker under a lexer-read budget (hook H2), a 30 CPU-second and 1.5 GiB guard; outcome classified: program XOR error, printable non-empty error, no panic, no nil hole anywhere in the AST (reflective walk) or bytecode. Every distinct source text counts once (the valid base programs are the control group that must be accepted)."
 	r.Assumptions = []string{
 		"bounded time/memory is decided as: lexer reads <= 64*(len+8)+4096 (hook count), <= 30 CPU-seconds and <= 1.5 GiB per Compile call",
 		"a hole is a nil pointer or nil interface reachable from the returned AST, or nil bytecode",
